@@ -37,7 +37,7 @@ ASSUMPTIONS = [
 ]
 TRUSTED = ['kgen.py dataset generator and describe()']
 PARTIAL = ('text/row layer proved outright; typed layer proved modulo the three float-codec laws (CPython facts, hypotheses of the '
-           'theorems); 3-D point coordinates go through %.10f (within 1e-10: oracle only); sensors keep their parameters as strings')
+           'theorems); 3-D point coordinates go through %.<d>f with d regenerated (points_within_1e10, points_resave_same_units over exact rationals; the double nearest to the decimal that loadtxt returns is not modelled: the correspondence checks, number by number, that the written token IS a nearest count for both the saved and the reloaded value); sensors keep their parameters as strings')
 _cache = {}
 
 
@@ -230,7 +230,7 @@ def run_impl(case):
     r = run_real(case)
     if r['error']:
         return {'error': r['error']}
-    return {'files': r['files'], 'rows': r['rows'], 'typed': typed_view(r['reloaded'])}
+    return {'files': r['files'], 'rows': r['rows'], 'typed': typed_view(r['reloaded']), 'points': point_items(r)}
 
 
 def to_model(case):
@@ -243,7 +243,36 @@ def to_model(case):
         for p in sorted(r['files']):
             if p in TYPED_FILES:
                 reqs.append({'op': 'decode', 'kind': TYPED_FILES[p], 'file': os.path.basename(p), 'text': r['files'][p], 'path': p})
+        reqs.append({'op': 'points', 'items': point_items(r)})
     return reqs
+
+
+POINTS_FILE = os.path.join('reconstruction', 'points3d.txt')
+
+
+def point_items(r):
+    """ [exact value as 'num/den', the token the implementation wrote for it] for every number of points3d.txt, first for the
+    values SAVED, then for the values LOADED BACK (the model says whether the token is a nearest count of 10^-d units: the
+    hypothesis of points_within_1e10 for the first, of points_resave_same_units for the second) """
+    text = r['files'].get(POINTS_FILE)
+    if text is None or r['orig']['points3d'] is None:
+        return []
+    tokens = [[t.strip() for t in ln.split(',')] for ln in text.splitlines() if ln.strip() and not ln.startswith('#')]
+    items = []
+    for which in ('orig', 'reloaded'):
+        pts = r[which]['points3d']
+        rows = pts['rows'] if pts is not None else []
+        if len(rows) != len(tokens):
+            items.append(['0/1', f'ROWS:{len(rows)}!={len(tokens)}'])
+            continue
+        for row, toks in zip(rows, tokens):
+            if len(row) != len(toks):
+                items.append(['0/1', f'COLS:{len(row)}!={len(toks)}'])
+                continue
+            for h, t in zip(row, toks):
+                n, den = kgen.F(h).as_integer_ratio()
+                items.append([f'{n}/{den}', t])
+    return items
 
 
 def compare(case, io_, mo):
@@ -288,6 +317,15 @@ def compare(case, io_, mo):
             a = [e for e in want if e not in dec][:2]
             b = [e for e in dec if e not in want][:2]
             return f'{p}: typed content: loaded-only {a} decoded-only {b}'
+    pts = mo[2 + len(io_['rows']) + len(typed_paths)]
+    if pts.get('nearest') is None:
+        return f'points: model error {pts}'
+    bad = [(it, k) for k, (it, ok) in enumerate(zip(io_['points'], pts['nearest'])) if not ok]
+    if len(pts['nearest']) != len(io_['points']) or bad:
+        it, k = bad[0] if bad else (None, -1)
+        half = len(io_['points']) // 2
+        return (f'points3d.txt: the token written is not a nearest count of 1e-{pts.get("decimals")} units of the value '
+                f'{"saved" if k < half else "loaded back"}: {it}')
     return None
 
 
